@@ -410,7 +410,7 @@ func Run(choices []int, keepTrace bool, fn func()) Result {
 		fn()
 	}()
 	var res Result
-	deadline := time.After(10 * time.Second)
+	deadline := time.After(6 * time.Second)
 wait:
 	for {
 		select {
